@@ -36,7 +36,7 @@ ASSUMPTIONS = ['"distinct failure reply" = equal (code, message) as compared '
                'exhaustion)']
 CELL_BUDGET_S = {'quick': 200, 'thorough': 2400}
 SAMPLE_P = 0.02
-MAX_WITNESSES = 6
+MAX_WITNESSES = 10
 OPTS = ['ok', 'permA', 'permB', 'tempA', 'tempB']
 
 
